@@ -1,0 +1,185 @@
+//go:build verif
+
+// Add-only exports for the verification harness (/verif, property C17).
+// Not compiled without the `verif` build tag.
+package aqua
+
+import (
+	"context"
+	"fmt"
+	"math/big"
+	"strings"
+	"time"
+
+	"gitlab.com/aquachain/aquachain/aqua/downloader"
+	"gitlab.com/aquachain/aquachain/aqua/event"
+	"gitlab.com/aquachain/aquachain/aquadb"
+	"gitlab.com/aquachain/aquachain/common"
+	"gitlab.com/aquachain/aquachain/consensus/aquahash"
+	"gitlab.com/aquachain/aquachain/core"
+	"gitlab.com/aquachain/aquachain/core/types"
+	"gitlab.com/aquachain/aquachain/core/vm"
+	"gitlab.com/aquachain/aquachain/p2p"
+	"gitlab.com/aquachain/aquachain/p2p/discover"
+	"gitlab.com/aquachain/aquachain/params"
+	"gitlab.com/aquachain/aquachain/rlp"
+)
+
+const (
+	VerifSoftResponseLimit = softResponseLimit
+	VerifEstHeaderRlpSize  = estHeaderRlpSize
+)
+
+type verifTxPool struct{ feed event.Feed }
+
+func (p *verifTxPool) AddRemotes(txs []*types.Transaction) []error { return make([]error, len(txs)) }
+func (p *verifTxPool) Pending() (map[common.Address]types.Transactions, error) {
+	return map[common.Address]types.Transactions{}, nil
+}
+func (p *verifTxPool) SubscribeTxPreEvent(ch chan<- core.TxPreEvent) event.Subscription {
+	return p.feed.Subscribe(ch)
+}
+
+// VerifPM is a ProtocolManager over an in-memory chain of `blocks` empty blocks.
+type VerifPM struct {
+	pm     *ProtocolManager
+	Hashes []common.Hash // canonical hashes, index = number
+	Blocks []*types.Block
+}
+
+func VerifNewPM(blocks int) (*VerifPM, error) {
+	var (
+		evmux  = new(event.TypeMux)
+		engine = aquahash.NewFaker()
+		db     = aquadb.NewMemDatabase()
+		gspec  = &core.Genesis{Config: params.TestChainConfig,
+			Alloc: core.GenesisAlloc{common.HexToAddress("0x71562b71999873DB5b286dF957af199Ec94617F7"): {Balance: big.NewInt(1000000)}}}
+		genesis = gspec.MustCommit(db)
+	)
+	blockchain, err := core.NewBlockChain(context.TODO(), db, nil, gspec.Config, engine, vm.Config{})
+	if err != nil {
+		return nil, err
+	}
+	chain, _ := core.GenerateChain(context.TODO(), gspec.Config, genesis, aquahash.NewFaker(), db, blocks, nil)
+	if blocks != 0 {
+		if _, err := blockchain.InsertChain(chain); err != nil {
+			return nil, err
+		}
+	}
+	pm, err := NewProtocolManager(gspec.Config, downloader.FullSync, DefaultConfig.ChainId, evmux, &verifTxPool{}, engine, blockchain, db)
+	if err != nil {
+		return nil, err
+	}
+	pm.Start(1000)
+	v := &VerifPM{pm: pm}
+	for i := uint64(0); i <= uint64(blocks); i++ {
+		b := blockchain.GetBlockByNumber(i)
+		if b == nil {
+			return nil, fmt.Errorf("block %d missing", i)
+		}
+		v.Hashes = append(v.Hashes, b.Hash())
+		v.Blocks = append(v.Blocks, b)
+	}
+	return v, nil
+}
+
+func (v *VerifPM) BodyRLPSize(h common.Hash) int { return len(v.pm.blockchain.GetBodyRLP(h)) }
+func (v *VerifPM) StateRoot(i int) common.Hash   { return v.Blocks[i].Root() }
+func (v *VerifPM) TrieNodeSize(h common.Hash) int {
+	b, err := v.pm.blockchain.TrieNode(h)
+	if err != nil {
+		return -1
+	}
+	return len(b)
+}
+
+// VerifReply is one message the handler sent back to the peer.
+type VerifReply struct {
+	Code  uint64
+	Size  uint32
+	Count int // number of elements of the top-level list (-1 if not a list)
+}
+
+// HandleOne runs ProtocolManager.handleMsg once on a fresh mock peer that sends
+// (code, size, payload).  class: ok | toolarge | extrastatus | invalidcode | decode | err | timeout.
+// A panic inside handleMsg is returned in panicVal.
+func (v *VerifPM) HandleOne(code uint64, size uint32, payload []byte, timeout time.Duration) (class string, replies []VerifReply, panicVal interface{}) {
+	app, net := p2p.MsgPipe()
+	defer app.Close()
+	var id discover.NodeID
+	id[0] = 0x42
+	peer := v.pm.newPeer(aqua65, p2p.NewPeer(id, "verif", nil), net)
+	// what peer.Handshake leaves behind (readStatus): the remote's head and total difficulty
+	head := v.pm.blockchain.CurrentHeader()
+	peer.td, peer.head = v.pm.blockchain.GetTd(head.Hash(), head.Number.Uint64()), head.Hash()
+	type res struct {
+		err error
+		pv  interface{}
+	}
+	done := make(chan res, 1)
+	go func() {
+		var r res
+		defer func() {
+			if x := recover(); x != nil {
+				r.pv = x
+			}
+			done <- r
+		}()
+		r.err = v.pm.handleMsg(peer)
+	}()
+	go app.WriteMsg(p2p.Msg{Code: code, Size: size, Payload: strings.NewReader(string(payload))})
+	repc := make(chan VerifReply, 16)
+	go func() {
+		for {
+			m, err := app.ReadMsg()
+			if err != nil {
+				close(repc)
+				return
+			}
+			r := VerifReply{Code: m.Code, Size: m.Size, Count: -1}
+			s := rlp.NewStream(m.Payload, uint64(m.Size))
+			if _, err := s.List(); err == nil {
+				n := 0
+				for {
+					if _, err := s.Raw(); err != nil {
+						break
+					}
+					n++
+				}
+				r.Count = n
+			}
+			m.Discard()
+			repc <- r
+		}
+	}()
+	var r res
+	select {
+	case r = <-done:
+	case <-time.After(timeout):
+		return "timeout", nil, nil
+	}
+	app.Close()
+	for rep := range repc {
+		replies = append(replies, rep)
+	}
+	if r.pv != nil {
+		return "panic", replies, r.pv
+	}
+	switch {
+	case r.err == nil:
+		class = "ok"
+	case strings.HasPrefix(r.err.Error(), errorToString[ErrMsgTooLarge]+" - "):
+		class = "toolarge"
+	case strings.HasPrefix(r.err.Error(), errorToString[ErrExtraStatusMsg]+" - "):
+		class = "extrastatus"
+	case strings.HasPrefix(r.err.Error(), errorToString[ErrInvalidMsgCode]+" - "):
+		class = "invalidcode"
+	case strings.HasPrefix(r.err.Error(), errorToString[ErrDecode]+" - "):
+		class = "decode"
+	default:
+		class = "err"
+	}
+	return class, replies, nil
+}
+
+func (v *VerifPM) Stop() { v.pm.Stop() }
